@@ -369,6 +369,12 @@ func c08Sweeps(tier string) []interface{} {
 			jobs = append(jobs, Job{Kind: "c08", Histories: c, NRules: 2, Bound: 0, Shapes: []ksim.Shape{sh}})
 		}
 	}
+	// header fields of replies the verdict does not live in: nlmsg_pid changing from reply to reply (port ids, relays),
+	// nlmsg_len understating / overstating the bytes that arrived (a header-less length, a length rounded up)
+	for _, sh := range []ksim.Shape{{ReplyPids: []uint32{0x1111, 0x2222}}, {ReplyPids: []uint32{7, 0, 9, 1 << 31}}, {ReplyPids: []uint32{0xFFFFFFFF, 1}}, {LenDelta: -16}, {LenDelta: -20}, {LenDelta: -4}, {LenDelta: 16}, {LenDelta: 3}, {LenDelta: 1 << 20}} {
+		jobs = append(jobs, Job{Kind: "c08", Histories: allHistories([]int{0, 1, 2, 4, 5}, 2), NRules: 2, Bound: 0, Shapes: []ksim.Shape{sh}})
+		jobs = append(jobs, Job{Kind: "c08", Histories: allHistories([]int{1, 4}, 1), NRules: 201, Bound: 0, Shapes: []ksim.Shape{sh}})
+	}
 	for code := 202; code <= 206; code++ {
 		jobs = append(jobs, Job{Kind: "c08", Histories: allHistories([]int{1, 4}, 2), NRules: code, Bound: 1})
 	}
@@ -585,6 +591,10 @@ func checkC08(tier string) int {
 	}
 	stackPass(run, "C08")
 	errnoDecoderPass(run, "C08")
+	packageCounterPass(run, "C08", [][]int{{0, 1}, {2, 3}, {4, 5}, {1, 4, 0}}, func(h []int) []Viol {
+		v, _, _ := execC08(h, 2, envdfs.New(nil), nil, ksim.Shape{}, false)
+		return v
+	})
 	c08Concurrent(run)
 	run.Set("histories", len(hs)*3)
 	run.Set("deviation_bound_completed", bound)
